@@ -101,7 +101,17 @@ pub fn check_input(info: &mut CaseInfo, input: &str, loaders: bool) -> CheckResu
     // Parser::load and the loaders recurse per nesting level (C11's subject): shallow inputs only
     for b in if loaders { vec![Backend::Str, Backend::Test(8)] } else { vec![] } {
         let calls = Rc::new(Cell::new(0u64));
-        let o = with_counting_parser!(b, input, calls, limit, |p| push_all(&mut p, maxev));
+        let o = with_counting_parser!(b, input, calls, limit, |p| {
+            let o = push_all(&mut p, maxev);
+            if o.error.is_none() {
+                // the parser is still a parser after a successful load: pulling from it may return
+                // anything (the statement does not say what), but must not panic or spin
+                let _ = p.peek().is_some();
+                let _ = p.next().is_some();
+                let _ = p.next().is_some();
+            }
+            o
+        });
         judge(info, &format!("load/{}", b.name()), chars, &calls, &o)?;
     }
     if loaders {
@@ -197,7 +207,7 @@ impl Property for C01P {
     }
     fn rule(&self) -> String {
         "Inputs: every string up to the stated length over the YAML indicator alphabet (exhaustive), proptest token soups, \
-         line-structured soups, mutated test-suite documents, the corpus, and scaling families (a unit repeated 10^2..4*10^4 times). \
+         line-structured soups, mutated test-suite documents (incl. tab-for-blank, line-break style, special-character and line-splitting mutations), the corpus, and scaling families (a unit repeated 10^2..4*10^4 times). \
          Each input is parsed 14 times: pull iterator on StrInput / BufferedInput / TestInput<8,16,64,128>, peek+next mixes, \
          load(multi) on two back-ends, and the four load_from_* loaders; every back-end sits behind a call-counting Input wrapper. \
          Oracle: no panic (catch_unwind), no abort (worker exit status), input calls <= 64*(chars+1)+64, events <= 8*(chars+1)+8. \
